@@ -198,6 +198,19 @@ void run_qr(unsigned seed) {
         }
     }
     { Rat p(1); for (size_t i = 0; i < n; ++i) p = p * R0[i * n + i]; if (!(det == p)) why += " det!=prod(R0_ii)"; }
+    // the expression overloads of pivot_inplace (unary_piv_op.h) must produce the same permutation, as an index
+    // vector and as a complete 0/1 matrix (destination pre-filled with the sentinel)
+    if (piv) {
+        Tensor<Rat,n,n> PX; Tensor<size_t,n> PVX;
+        for (size_t i = 0; i < n * n; ++i) PX.data()[i] = Rat(77);
+        for (size_t i = 0; i < n; ++i) PVX.data()[i] = 77;
+        pivot_inplace(A + Rat(0), PX);
+        pivot_inplace(A + Rat(0), PVX);
+        bool okm = true, okv = true;
+        for (size_t i = 0; i < n; ++i) { if (PVX(i) != eperm[i]) okv = false; for (size_t j = 0; j < n; ++j) if (!(PX(i, j) == Rat(j == eperm[i] ? 1 : 0))) okm = false; }
+        if (!okv) why += " pivot_inplace(expr,perm)-wrong";
+        if (!okm) why += " pivot_inplace(expr,P)-not-the-permutation-matrix";
+    }
     for (size_t i = 1; i < why.size(); ++i) if (why[i] == ' ') why[i] = ';';
     std::printf(" ORACLE=%s\n", why.empty() ? "ok" : ("FAIL:" + why.substr(1)).c_str());
     if (g_verbose) {
